@@ -171,12 +171,14 @@ def huge_log_rule():
     """add(key, v) with v around 2^63..2^64-1 on a log sketch: the kernel stops at the ceiling, so the call is cheap
     whenever max_count is small (expected ~max_count loop iterations)"""
 
-    @rule(i=SK, ki=IDX, v=st.sampled_from([2**63 - 1, 2**63, 2**63 + 5, 2**64 - 1]), d=st.sampled_from([0.0, 0.5, 1.0 - 2.0**-53]))
+    @rule(i=SK, ki=IDX, v=st.sampled_from([2**63 - 1, 2**63, 2**63 + 5, 2**64 - 1]), d=st.sampled_from([[0.0], [0.0, 0.5, 1.0 - 2.0**-53], [1.0 - 2.0**-53, 0.0]]))
     def add_huge_log(self, i, ki, v, d):
         cfg = self.world.cfg
         if cfg["kind"] in ("log8", "log16") and cfg.get("max_count", CEIL) <= 10**6:
-            # the planted draw fills the current batch of 2048; the kernel refills it from its generator afterwards
-            self.do({"op": "add", "i": i % self.N, "k": self.key(ki), "v": v, "draws": [d]})
+            # the planted draws fill the current batch of 2048 (tiled); the kernel refills it from its generator afterwards.
+            # Every planted batch contains 0.0 (always advance), so the call ends at the ceiling even on a tree that
+            # recycles its batch instead of refilling it
+            self.do({"op": "add", "i": i % self.N, "k": self.key(ki), "v": v, "draws": d})
 
     return add_huge_log
 
